@@ -18,9 +18,9 @@ func checkC10(r *Run) {
 	r.Rule("R4", "user value wins: in both constructors every default helper is Set only when absent from the new context and (with an outer) from the whole outer chain, tested with Has; the data argument is stored, not copied or overridden", 1)
 	r.Rule("R5", "children get a fresh map and the receiver as outer; Set writes only the receiver's map (C09.R2, C09.R3)", 1)
 	ownershipRule(r, "R1")
-	lookupOrderRule(r, "R2")
+	lookupOrderRuleSSA(r, "R2")
 	hasRule(r, "R3")
-	helperInjectionRule(r, "R4")
+	helperInjectionRuleSSA(r, "R4")
 	freshChildRule(r, "R5")
 	setLocalRule(r, "R5")
 }
